@@ -1,4 +1,4 @@
-From QV Require Import model.Base model.Lang model.Sem proofs.SemProofs props.C13.
+From QV Require Import model.Base model.Lang model.Sem proofs.SemProofs proofs.ScopeProofs proofs.FrameProofs props.C13.
 Open Scope Z_scope.
 Check (C13_partial_effects_in_source_order : forall names this st o1 i1 o2 i2 n1 n2 st',
   object_named names o1 = Some i1 -> object_named names o2 = Some i2 ->
@@ -12,3 +12,8 @@ Check (C13_partial_parameters_general : forall ps args k,
   NoDup (map fst ps) -> (length ps <= length args)%nat -> (k < length ps)%nat ->
   lookup (handler_env ps args) (fst (nth k ps (""%string, None))) = Some (Some (nth k args VVoid))).
 Check (eq_refl : handler_env [("x"%string, None); ("y"%string, None)] [VI 1; VI 2; VI 3] = [("y"%string, Some (VI 2)); ("x"%string, Some (VI 1))]).
+Check (C13_partial_trace_only_grows : forall names this s st e o st' e',
+  exec names this st e s = Def (o, st', e') -> exists t, trace st' = t ++ trace st).
+Check (C13_partial_block_effects_in_source_order : forall names this s rest st e o st' e',
+  exec names this st e (SBlock (s :: rest)) = Def (o, st', e') ->
+  exists o1 st1 e1 t1 t2, exec names this st e s = Def (o1, st1, e1) /\ trace st1 = t1 ++ trace st /\ trace st' = t2 ++ t1 ++ trace st).
